@@ -5,7 +5,7 @@ from .extract import LostAnchor, SourceFile
 from .rustlex import LexError
 
 VERIF = os.path.dirname(os.path.dirname(os.path.abspath(__file__)))
-BUILD = os.path.join(VERIF, "build")
+BUILD = os.environ.get("VERIF_BUILD") or os.path.join(VERIF, "build")   # VERIF_BUILD: a second build tree, so that runs against scratch copies can go side by side
 REPO = os.environ.get("VERIF_REPO", "/repo")
 NATIVE_TC = "nightly-2025-04-02"
 
